@@ -84,11 +84,11 @@ def step_clause(t, x, r, sgn):
     return '!%s || %s == %s %s 1' % (T['fin'] % x, T['ord'] % r, T['ord'] % x, sgn)
 
 
-def nstep_clause(t, x, n, r, sgn):
+def nstep_clause(t, x, n, r, sgn, ncast='(s64)(s8)'):
     """statement: the n-step overload equals n single steps; single steps are specified on finite arguments, so the
     clause speaks of those (x, n) for which the first n-1 steps stay finite: ord(x) +- n within [-ord(inf), ord(inf)]"""
     T = TY[t]
-    o, N = T['ord'] % x, '(s64)(s8)%s' % n
+    o, N = T['ord'] % x, '%s%s' % (ncast, n)
     inrange = ('%s + %s <= %s' % (o, N, T['inf'])) if sgn == '+' else ('%s - %s >= -%s' % (o, N, T['inf']))
     return '!%s || !(%s) || %s == %s %s %s' % (T['fin'] % x, inrange, T['ord'] % r, o, sgn, N)
 
@@ -97,6 +97,14 @@ def nstep_clause(t, x, n, r, sgn):
 # validation runs every shim natively on random arguments, and a random 32-bit step count would loop for 2^31 steps.
 # The contracts speak of 0 <= n <= 64 at most, so nothing claimed is lost.
 NT = 'int8_t'
+
+
+def loop_inv(t, sgn):
+    """loop contract of `for (i = 0; i < n; ++i) temp = next_or_prev(temp)` as clang leaves it (rotated: entered only if n > 0, one phi for i, one for temp)"""
+    w = '32' if t == 'f32' else '64'
+    lim = ('SPEC_MIN64(SPEC_ORD%s_LV(x) + (s64)PHI_I(0), %s)' if sgn == '+' else 'SPEC_MAX64(SPEC_ORD%s_LV(x) - (s64)PHI_I(0), -%s)') % (w, 'SPEC_ORD%s_INF_LV' % w)
+    return ('__CPROVER_loop_invariant(PHI_I(0) < n && (SPEC_ISNAN%s_LV(x) || SPEC_ORD%s_LV(PHI_F(0)) == %s)) '
+            '__CPROVER_decreases(n - PHI_I(0))' % (w, w, lim))
 
 
 def n_req(ns, nmax):
@@ -125,6 +133,14 @@ for alias, (fnext, fprev, fdist, F1, FV) in (
             d.shim(sn + '_deep', cpp, [(cpp, 'x'), (NT, 'n')], 'return glm::%s(x, n);' % fname)
             C(sn + '_deep', 'glm::%s(%s, int)  %s' % (fname, cpp, F1), 'thorough', unwind=NMAX_T[t] + 2, bounded='n <= %d' % NMAX_T[t],
               requires=n_req(['n'], NMAX_T[t]), timeout=3600, ensures=[('equals_n_single_steps', nstep_clause(t, 'x', 'n', 'RESULT', sgn))])
+            # the same statement for EVERY step count n >= 0 (the real `int` parameter, no bound): the loop `for (i < n) t = next(t)` is closed by
+            # an inductive loop contract (goto-instrument --apply-loop-contracts), not by unwinding.  Invariant, in terms of the order map:
+            # after i steps the running value sits i places above (below) x, saturating at +inf (-inf); variant n - i.  The n-bounded
+            # twins above stay: they provide replayable counterexamples, which a failed inductive step cannot.
+            sN = 'glm_%s_N_%s_s' % (fname, t)
+            d.shim(sN, cpp, [(cpp, 'x'), ('int32_t', 'n')], 'return glm::%s(x, n);' % fname, tmask={'n': 0x3f})
+            C(sN, 'glm::%s(%s, int)  %s' % (fname, cpp, F1), requires=[('steps_nonnegative', '(s32)n >= 0')], loops=[loop_inv(t, sgn)],
+              ensures=[('equals_n_single_steps_for_every_n', nstep_clause(t, 'x', 'n', 'RESULT', sgn, '(s64)(s32)'))])
             for L in LS:
                 xs, ns = names(L, 'x'), names(L, 'n')
                 V = vec_t(L, t)
@@ -163,6 +179,11 @@ for alias, (fnext, fprev, fdist, F1, FV) in (
             C(nm, 'glm::%s(x, glm::%s(x, n))  %s' % (fdist, fnext, F1), tr, unwind=nmax + 2, bounded='n <= %d' % nmax, requires=n_req(['n'], nmax), timeout=to,
               ensures=[('distance_to_nth_successor_is_n', '!%s || !(%s + %s <= %s) || %s == %s' % (
                   T['fin'] % 'x', o, N, T['inf'], T['dres'] % 'RESULT', '(s64)(s8)n' if t == 'f32' else '(u64)(s64)(s8)n'))])
+        # ... and for every n >= 0 (inductive loop contract on the inlined nextFloat loop, see loop_inv)
+        d.shim(sc + '_N', dret, [(cpp, 'x'), ('int32_t', 'n')], 'return glm::%s(x, glm::%s(x, n));' % (fdist, fnext), tmask={'n': 0x3f})
+        C(sc + '_N', 'glm::%s(x, glm::%s(x, n))  %s' % (fdist, fnext, F1), requires=[('steps_nonnegative', '(s32)n >= 0')], loops=[loop_inv(t, '+')],
+          ensures=[('distance_to_nth_successor_is_n_for_every_n', '!%s || !(%s + (s64)(s32)n <= %s) || %s == %s' % (
+              T['fin'] % 'x', o, T['inf'], T['dres'] % 'RESULT', '(s64)(s32)n' if t == 'f32' else '(u64)(s64)(s32)n'))])
         for L in LS:
             xs, ys = names(L, 'x'), names(L, 'y')
             vd = 'glm_%s_%s_v%d' % (fdist, t, L)
@@ -317,14 +338,16 @@ for fn, real, tier, kw in contracts:
 P.level_text = ('every scalar overload is proved against an integer specification of "number of representable values between" '
                 '(spec_ord32/64) for all 2^32 float / 2^64 double bit patterns of each argument (symbolic arguments = complete '
                 'enumeration); every vector, matrix and quaternion overload is proved component-wise identical to the scalar '
-                'overload on all inputs; n-step obligations are closed by unwinding under REQUIRES(0 <= n <= 64) and are '
-                'reported as bounded, not proved')
+                'overload on all inputs; the scalar n-step overloads (and floatDistance(x, nextFloat(x, n)) == n) are proved for EVERY step '
+                'count n >= 0 by an inductive loop contract on the extracted loop (goto-instrument --apply-loop-contracts: invariant '
+                'ord(t_i) = ord(x) +- i saturating at the infinities, variant n - i); their n-bounded twins (unwinding, n <= 16/64) are kept '
+                'for replayable counterexamples and are reported as bounded, as are the vector n-step overloads (n <= 8)')
 P.level_note = ('libm nextafter/nextafterf (what std::nextafter resolves to) is NOT the code under proof: it is replaced by the '
                 'bit-level model in rt/ll2c_fpmodels.h written from C11 7.12.11.3; so what is proved about GLM in nextFloat/prevFloat '
                 'is the direction argument passed to nextafter and the composition (loops, per-component application, '
                 'floatDistance o nextFloat), not the stepping itself. Native replay of a counterexample uses the real libm. '
                 'Trusted besides: clang-14 lowering, ll2c translation (T-checked), CBMC float model, specs/spec_ulp.h written from IEEE-754')
-P.technique = 'CBMC code contracts (DFCC enforce) on mechanically extracted C; SAT bit-precise'
+P.technique = 'CBMC code contracts (DFCC enforce, loop contracts for the n-step loops) on mechanically extracted C; SAT bit-precise'
 P.design_ref = 'DESIGN.md section 6 C14'
 P.assumptions = ['libm nextafter/nextafterf behave as the bit-level model rt/ll2c_fpmodels.h (C11 7.12.11.3); floating-point exception flags are not modelled',
                  'only the GLM_HAS_CXX11_STL branch of nextFloat/prevFloat is compiled (std::nextafter); the MSVC/Android/pre-C++11 branches are not',
